@@ -21,10 +21,18 @@
                  injected into that very call;
      Frame       no call changes an allocation recorded under a handle that is not one of the calling
                  container's two handles (a delete never frees another container's addresses; an add
-                 never takes or frees them either).                                                  *)
+                 never takes or frees them either);
+     HeldKept    "a successful add HOLDS an address for every requested family": the addresses returned
+                 by a container's successful adds (`held`) stay allocated to "<net>.<containerID>" until
+                 a delete of that container releases them (a successful delete, or a failed one that
+                 was partially effective).  In particular a later add for the same container id and
+                 network - successful or failed, e.g. a retried dual-stack add that comes back one
+                 family short and rolls back - never frees addresses held from an EARLIER successful add. *)
 EXTENDS Naturals, FiniteSets, Sequences, TLC
 
-VARIABLE alloc          \* set of [a |-> address, h |-> handle id]
+VARIABLES alloc,        \* set of [a |-> address, h |-> handle id]
+          held          \* subset of alloc (invariant): addresses returned by successful adds and not released
+                        \* by a delete since, recorded with the primary handle of the container they were returned to
 
 HC(net, c) == net \o "." \o c.id            \* primary handle
 HL(c)      == c.ns \o "." \o c.pod          \* legacy workload-ID handle
@@ -41,9 +49,13 @@ AddHolds(net, c, fams, ips, new) ==
     /\ \A f \in fams : \E r \in ips : r.fam = f
     /\ \A r \in ips : [a |-> r.a, h |-> HC(net, c)] \in new
 
-JudgeAdd(net, c, fams, ok, ips, old, new) ==
+JudgeAdd(net, c, fams, ok, ips, old, hd, new) ==
     /\ Frame(old, new, Handles(net, c))
     /\ ok => AddHolds(net, c, fams, ips, new)
+    /\ hd \subseteq new                                                 \* HeldKept
+
+HeldAfterAdd(net, c, ok, ips, hd) ==
+    IF ok THEN hd \cup { [a |-> r.a, h |-> HC(net, c)] : r \in ips } ELSE hd
 
 JudgeDel(net, c, ok, faulted, old, new) ==
     /\ Frame(old, new, Handles(net, c))
@@ -51,11 +63,19 @@ JudgeDel(net, c, ok, faulted, old, new) ==
     /\ (~faulted /\ Owned(old, Handles(net, c)) = {}) => ok            \* DelIdem
 
 \* environment: somebody (an old plugin) allocates under the legacy handle of c's pod
-JudgeLegacy(c, old, new) == Frame(old, new, {HL(c)})
+JudgeLegacy(c, old, hd, new) == Frame(old, new, {HL(c)}) /\ hd \subseteq new
 
 \* ---- actions ---------------------------------------------------------------------------------------
-Add(net, c, fams, ok, ips, new)   == JudgeAdd(net, c, fams, ok, ips, alloc, new) /\ alloc' = new
-Del(net, c, ok, faulted, new)     == JudgeDel(net, c, ok, faulted, alloc, new) /\ alloc' = new
-Legacy(c, new)                    == JudgeLegacy(c, alloc, new) /\ alloc' = new
-Reset(new)                        == alloc' = new
+Add(net, c, fams, ok, ips, new)   == /\ JudgeAdd(net, c, fams, ok, ips, alloc, held, new)
+                                     /\ alloc' = new
+                                     /\ held' = HeldAfterAdd(net, c, ok, ips, held)
+\* a delete (successful, or failed but partially effective) ends the hold on whatever it released; Frame
+\* guarantees that this can only concern the deleted container's own handles
+Del(net, c, ok, faulted, new)     == /\ JudgeDel(net, c, ok, faulted, alloc, new)
+                                     /\ alloc' = new
+                                     /\ held' = held \cap new
+Legacy(c, new)                    == JudgeLegacy(c, alloc, held, new) /\ alloc' = new /\ UNCHANGED held
+Reset(new)                        == alloc' = new /\ held' = {}
+
+HeldAllocated == held \subseteq alloc
 =============================================================================
